@@ -90,6 +90,9 @@ def handleGrid (op : String) (j : Json) : Option (Except String Json) :=
     let naRep ← getStr j "naRep"
     pure (Json.mkObj [("wf", Json.bool (excelWF t)), ("naRepOK", Json.bool (naRepOK naRep)),
                       ("representable", Json.bool ((layoutTable naRep t).all (fun r => r.all cellRepresentable)))])
+  | "grid_sheet_names" => some do
+    let names ← (← getArr j "names").mapM fun x => do let s ← x.getStr?; pure s.toList
+    pure (Json.mkObj [("ok", Json.bool (sheetNamesOK names))])
   | "grid_write_read" => some do
     let sheets ← (← getArr j "sheets").mapM fun s => do
       let n ← getStr s "name"
